@@ -116,7 +116,10 @@ def exitCur (s : St) (v : Val) : Except Fault (St × Ev) :=
 
 def stepCore (s : St) : Op → Except Fault (St × Ev)
   | .create c ctx =>
+    -- re-initialising a coroutine that is still RUNNING (suspended somewhere) would leak its stack and trips the
+    -- debug asserts of whoever is suspended in a transfer to it: excluded as a precondition
     if c = 0 ∨ c = s.cur then .error .isMainOrCurrent
+    else if (s.co c).status = .running then .error .startRunning
     else .ok (s.upd c (fun x => { x with parent := none, caller := none, status := .created, exitv := 0,
                                           ctx := ctx, inited := true }), .none)
   | .start c _ =>
